@@ -35,6 +35,7 @@ type swk struct {
 	retTick   atomic.Uint64
 	early     chan struct{}
 	rel       sync.Once
+	runs      atomic.Int32 // invocations of the handler (must be 1)
 	// call record (written by the caller goroutine, read after join)
 	callTick, callRet   uint64
 	err                 error
@@ -49,6 +50,7 @@ type stressIter struct {
 	orderViol atomic.Pointer[string]
 	deadlock  atomic.Pointer[string] // set by the monitor
 	shutReq   atomic.Bool            // the harness has called Shutdown/ShutdownAndWait
+	restarted atomic.Pointer[string] // a handler was launched twice
 	big       []*swk                 // start-up family: all workers (immutable during the iteration)
 }
 
@@ -219,6 +221,12 @@ func (w *swk) checkLower() {
 }
 
 func (w *swk) fn(ctx context.Context) {
+	if w.runs.Add(1) > 1 {
+		// the daemon launched the handler of an already started worker a second time
+		s := fmt.Sprintf("the handler of worker %s (order %d) was launched a second time (first run returned: %v, context cancelled: %v)", w.name, w.order, w.returned.Load(), ctx.Err() != nil)
+		w.it.restarted.CompareAndSwap(nil, &s)
+		return
+	}
 	w.ctx.Store(&ctx)
 	w.started.Store(true)
 	if w.selfEarly {
@@ -267,6 +275,16 @@ func jitterHook(p string) {
 	}
 }
 
+// reportRestart: a second Start() (a documented no-op on a started daemon) that
+// overlaps the end of a shutdown must not launch anything.
+func reportRestart(it *stressIter, viol func(fp, what string)) {
+	// give handlers launched after the shutdown a chance to get on record
+	gosched(20)
+	if s := it.restarted.Load(); s != nil {
+		viol("start-vs-shutdown:workers-launched-again-after-shutdown", "a Start() call on the already started daemon raced with Shutdown/ShutdownAndWait: "+*s)
+	}
+}
+
 func call(d *daemon.OrderedDaemon, w *swk) {
 	defer func() {
 		if r := recover(); r != nil {
@@ -310,11 +328,30 @@ func stressOne(c *vf.Ctx, seed int64, batch, iter int, race bool) {
 		pre = append(pre, w)
 		all = append(all, w)
 	}
+	runQueries(d, queryPlan(rng, false, true), nil) // before Start
 	d.Start()
 	curIter.Store(it)
+	runQueries(d, queryPlan(rng, true, true), nil) // while running
+	nQueries := 0
 
 	var wg sync.WaitGroup
-	var mu sync.Mutex // harness-side only
+	var mu sync.Mutex                          // harness-side only
+	for q, nq := 0, rng.Intn(3); q < nq; q++ { // queriers racing with registrars, worker exits and shutdown
+		qr := rand.New(rand.NewSource(rng.Int63()))
+		plans := [][]int{queryPlan(qr, true, true), queryPlan(qr, true, true), queryPlan(qr, true, true)}
+		gaps := []int{qr.Intn(40), qr.Intn(40), qr.Intn(40)}
+		for _, p := range plans {
+			nQueries += len(p)
+		}
+		wg.Add(1)
+		go func() {
+			defer wg.Done()
+			for i, p := range plans {
+				gosched(gaps[i])
+				runQueries(d, p, nil)
+			}
+		}()
+	}
 	nReg := 1 + rng.Intn(3)
 	for r := 0; r < nReg; r++ {
 		rr := rand.New(rand.NewSource(rng.Int63()))
@@ -361,6 +398,8 @@ func stressOne(c *vf.Ctx, seed int64, batch, iter int, race bool) {
 	for sidx := 0; sidx < nShut; sidx++ {
 		wait := sidx == 0 || rng.Intn(2) == 0
 		lead := rng.Intn(60)
+		prePlan := queryPlan(rng, true, true) // right before the shutdown request
+		nQueries += len(prePlan)
 		wg.Add(1)
 		go func() {
 			defer wg.Done()
@@ -371,6 +410,7 @@ func stressOne(c *vf.Ctx, seed int64, batch, iter int, race bool) {
 				}
 			}()
 			gosched(lead)
+			runQueries(d, prePlan, nil)
 			t0 := tick()
 			shutCall.CompareAndSwap(0, t0)
 			it.shutReq.Store(true)
@@ -412,6 +452,7 @@ func stressOne(c *vf.Ctx, seed int64, batch, iter int, race bool) {
 		viol("late-bgworker:leaked-uncancelled-worker", *m)
 	}
 	c.Count("stress_iterations", 1)
+	c.Count("stress_query_calls", nQueries)
 
 	// post-shutdown call
 	post := newW("post", "post")
@@ -429,6 +470,7 @@ func stressOne(c *vf.Ctx, seed int64, batch, iter int, race bool) {
 	if s := it.orderViol.Load(); s != nil {
 		viol("order:cancelled-before-higher-returned", *s)
 	}
+	reportRestart(it, viol)
 	for _, w := range all {
 		c.Count("stress_bgworker_calls", 1)
 		c.Count("evaluations", 1)
